@@ -73,6 +73,10 @@ impl SimpleSerializer for DictionaryUtf8Builder {
     }
 
     fn serialize_none(&mut self) -> Result<()> {
+        if !self.indices.is_nullable() {
+            // report the null under the dictionary field, not under its key child
+            fail!(in self, "Cannot push null for non-nullable array");
+        }
         try_(|| self.indices.serialize_none().ctx(self)).ctx(self)
     }
 
